@@ -47,8 +47,13 @@ PROPS = {
     },
     "C12": {
         "modules": ["C12"],
-        "streams": [{"name": "codec", "quick": 1500, "thorough": 90000}, {"name": "weight", "quick": 200, "thorough": 9000}],
-        "projection": "all",
+        "streams": [{"name": "codec", "quick": 1500, "thorough": 90000}, {"name": "weight", "quick": 200, "thorough": 9000},
+                    # coins locked by byte strings that name no program (non-canonical integers, truncated literals, unknown
+                    # opcodes) on every network and height regime: the state transition function must use the strict decoder
+                    {"name": "cov", "quick": 120, "thorough": 4800}],
+        "projection": "codec_and_status",
+        # which batches are accepted is fixed by the property ("a covenant hash denotes exactly one program")
+        "verdict_is_spec": True,
         "oracles": ["codec"],
     },
     "C14": {
@@ -120,7 +125,9 @@ PROPS = {
         # proved model rejects (or the other way round) is an input on which the property fails
         "verdict_is_spec": True,
         "modules": ["C05", "C05Hist", "PinC05"],
-        "streams": [{"name": "apply", "quick": 180, "thorough": 7200}, {"name": "seal", "quick": 90, "thorough": 3200}, {"name": "weight", "quick": 200, "thorough": 9000}],
+        "streams": [{"name": "apply", "quick": 180, "thorough": 7200}, {"name": "seal", "quick": 90, "thorough": 3200}, {"name": "weight", "quick": 200, "thorough": 9000},
+                    # hostile mutations that bear on fees: covenants listed several times whose weights approach or pass a u128
+                    {"name": "hostile", "quick": 100, "thorough": 3200}],
         "projection": "fees",
         "oracles": ["fees"],
         "assumptions": ["the serialised length of a transaction is an input of the model (supplied by the implementation)"],
